@@ -23,6 +23,8 @@ Proof. unfold str_of_nat, show_nat, nat_of_str.
   - exact Hk. Qed.
 Print Assumptions nat_of_str_of_nat.
 
+(* every paragraph identity lies below the document's next free identity (what the reader guarantees, and what every session keeps) *)
+Definition wf_ids (d : doc) : Prop := Forall (fun p => p_id p < d_next_uid d) (doc_paras d).
 (* ---------- the session-rejected view and the relation every engine step preserves ---------- *)
 Section EngInv.
 Variable cur0 c0 n0 : nat.          (* highest revision id / first free comment id / first free node identity when the session starts *)
@@ -66,7 +68,7 @@ Proof. unfold resolve.
     all: try (match goal with H : do_split ?dd ?u ?k = (?d2, _, _) |- _ => pose proof (Rel_split dd u k) as S2; rewrite H in S2; cbn [fst] in S2; exact S2 end).
 Qed.
 Lemma Rel_anchor d sp i : Rel d (fst (insertion_anchor d sp i)).
-Proof. unfold insertion_anchor.
+Proof. unfold insertion_anchor, gap_anchor, after_span.
   repeat (brk; cbn [fst]; try apply Rel_refl).
   all: try (match goal with H : do_split ?dd ?u ?k = (?d2, _, _) |- _ => pose proof (Rel_split dd u k) as S2; rewrite H in S2; cbn [fst] in S2; exact S2 end).
 Qed.
@@ -91,7 +93,7 @@ Proof. unfold resolve.
     all: try (match goal with H : do_split ?dd ?u ?k = (?d2, _, _) |- _ => pose proof (Mon_split dd u k) as S2; rewrite H in S2; cbn [fst] in S2; exact S2 end).
 Qed.
 Lemma Mon_anchor d sp i : Mon d (fst (insertion_anchor d sp i)).
-Proof. unfold insertion_anchor.
+Proof. unfold insertion_anchor, gap_anchor, after_span.
   repeat (brk; cbn [fst]; try apply Mon_refl).
   all: try (match goal with H : do_split ?dd ?u ?k = (?d2, _, _) |- _ => pose proof (Mon_split dd u k) as S2; rewrite H in S2; cbn [fst] in S2; exact S2 end).
 Qed.
@@ -131,11 +133,17 @@ Proof. intros [R _] K. now rewrite (prune_id kid b K) in R. Qed.
 
 (* ---------- engine state invariant ---------- *)
 Variable d0 : doc.
-Definition Inv (e : eng) : Prop := RelG d0 (e_doc e) /\ n0 <= d_next_uid (e_doc e) /\ cur0 <= e_cur e /\ c0 <= e_next_c e.
+Lemma wf_step b c : wf_ids b -> Rel b c -> Mon b c -> wf_ids c.
+Proof. intros W (A1 & _) M. unfold wf_ids, Mon in *.
+  assert (E : map p_id (doc_paras c) = map p_id (doc_paras b)).
+  { apply (f_equal (map (fun t : nat * N * pstyle * list atom => fst (fst (fst t))))) in A1. rewrite !map_map in A1. exact A1. }
+  apply Forall_forall. intros p Hp. assert (Hi : In (p_id p) (map p_id (doc_paras b))) by (rewrite <- E; now apply in_map).
+  apply in_map_iff in Hi as (q & Hq & Hqin). rewrite Forall_forall in W. specialize (W q Hqin). lia. Qed.
+Definition Inv (e : eng) : Prop := RelG d0 (e_doc e) /\ n0 <= d_next_uid (e_doc e) /\ cur0 <= e_cur e /\ c0 <= e_next_c e /\ wf_ids (e_doc e).
 Lemma Inv_with_doc e d : Inv e -> Rel (e_doc e) d -> Mon (e_doc e) d -> Inv (with_doc e d).
-Proof. intros (A & N & B & C) R M. split; [exact (RelG_step _ _ _ A R)|]. unfold Mon in M. cbn [with_doc e_doc e_cur e_next_c]. repeat split; try assumption; lia. Qed.
+Proof. intros (A & N & B & C & W) R M. split; [exact (RelG_step _ _ _ A R)|]. pose proof (wf_step _ _ W R M) as W'. unfold Mon in M. cbn [with_doc e_doc e_cur e_next_c]. repeat split; try assumption; lia. Qed.
 Lemma new_mark_inv e : Inv e -> Inv (fst (new_mark e)) /\ Smark (snd (new_mark e)) = true.
-Proof. intros (A & N & B & C). unfold new_mark. cbn [fst snd]. split; [split; [exact A|split; [exact N|split; cbn; lia]]|].
+Proof. intros (A & N & B & C & W). unfold new_mark. cbn [fst snd]. split; [split; [exact A|split; [exact N|split; [cbn; lia|split; [cbn; lia|exact W]]]]|].
   unfold Smark. cbn [m_id]. rewrite nat_of_str_of_nat. apply Nat.ltb_lt. lia. Qed.
 Lemma fresh_e_inv e : Inv e -> Inv (fst (fresh_e e)).
 Proof. intros H. unfold fresh_e. pose proof (Rel_fresh (e_doc e)) as F. pose proof (Mon_fresh (e_doc e)) as M.
@@ -166,42 +174,69 @@ Proof. intros H (iu & m & runs & -> & Hm). unfold place_after. apply Inv_with_do
 Lemma place_before_inv e uid n : Inv e -> session_ins n -> Inv (place_before e uid n).
 Proof. intros H (iu & m & runs & -> & Hm). unfold place_before. apply Inv_with_doc; auto; [|apply Mon_upd]. exact (Rel_upd (PInsBefore uid iu m runs) (e_doc e) Hm). Qed.
 Lemma attach_inv e su eu text : Inv e -> Inv (attach e su eu text).
-Proof. intros (A & N & B & C). unfold attach. destruct text as [|c t]; [exact (conj A (conj N (conj B C)))|].
+Proof. intros (A & N & B & C & W). unfold attach. destruct text as [|c t]; [exact (conj A (conj N (conj B (conj C W))))|].
   set (cid := str_of_nat (e_next_c e)).
   assert (Hc : Ccom cid = true). { unfold Ccom, cid. rewrite nat_of_str_of_nat. apply Nat.leb_le. exact C. }
   set (d1 := {| d_stories := d_stories (e_doc e); d_next_uid := d_next_uid (e_doc e); d_comments := d_comments (e_doc e) ++ _ |}).
   assert (R1 : Rel (e_doc e) d1).
   { split; [reflexivity|]. split; [reflexivity|]. eexists. split; [reflexivity|]. constructor; [exact Hc|constructor]. }
+  assert (M1 : Mon (e_doc e) d1) by (unfold Mon; cbn; lia).
   pose proof (Rel_fresh d1) as R2. pose proof (Mon_fresh d1) as M2. destruct (fresh d1) as [d2 ru]. cbn [fst] in R2, M2.
-  split; [|split; [|split; cbn; lia]]; cbn [e_doc].
-  - eapply RelG_step; [|exact (Rel_upd (PAnchor su eu cid ru rpr_cref) d2 Hc)]. eapply RelG_step; [|exact R2]. eapply RelG_step; [exact A|exact R1].
-  - unfold Mon in M2. cbn in *. lia. Qed.
+  pose proof (Rel_upd (PAnchor su eu cid ru rpr_cref) d2 Hc) as R3. pose proof (Mon_upd (prim_fun (PAnchor su eu cid ru rpr_cref)) d2) as M3.
+  split; [|split; [|split; [cbn; lia|split; [cbn; lia|]]]]; cbn [e_doc].
+  - eapply RelG_step; [|exact R3]. eapply RelG_step; [|exact R2]. eapply RelG_step; [exact A|exact R1].
+  - unfold Mon in *. cbn in *. lia.
+  - exact (wf_step _ _ (wf_step _ _ (wf_step _ _ W R1 M1) R2 M2) R3 M3). Qed.
 
 (* ---------- new paragraphs ---------- *)
 Definition good_para (p : para) : Prop := kid (p_id p) = false /\ rejS (atoms_l [] (p_nodes p)) = [].
+(* node identities only grow along the steps that build new paragraphs *)
+Definition emon (e e' : eng) : Prop := d_next_uid (e_doc e) <= d_next_uid (e_doc e').
+Lemma emon_fresh_e e : emon e (fst (fresh_e e)). Proof. unfold emon, fresh_e, fresh. cbn. lia. Qed.
+Lemma emon_new_mark e : emon e (fst (new_mark e)). Proof. unfold emon, new_mark. cbn. lia. Qed.
+Lemma emon_trans a b c : emon a b -> emon b c -> emon a c. Proof. unfold emon. lia. Qed.
+Lemma emon_ins_inline e text anc sup : emon e (fst (ins_inline e text anc sup)).
+Proof. unfold ins_inline. set (segs := parse_inline _ _ _ _ _ _).
+  assert (G : forall l e0 rs, emon e0 (fst (fold_left (fun acc seg => let '(e0, rs) := acc in let '(t, b, i) := seg in
+                        let '(e0', u) := fresh_e e0 in (e0', rs ++ [(u, apply_run_props anc b i sup, [CT t])])) l (e0, rs)))).
+  { induction l as [|[[t b] i] l IH]; intros e0 rs; [cbn [fold_left fst]; unfold emon; lia|]. cbn [fold_left].
+    pose proof (emon_fresh_e e0) as H1. destruct (fresh_e e0) as [e0' u]. cbn [fst] in H1. exact (emon_trans _ _ _ H1 (IH e0' _)). }
+  specialize (G segs e []). destruct (fold_left _ segs (e, [])) as [e1 runs]. cbn [fst] in G.
+  pose proof (emon_fresh_e e1) as H2. destruct (fresh_e e1) as [e2 iu]. cbn [fst] in H2.
+  pose proof (emon_new_mark e2) as H3. destruct (new_mark e2) as [e3 m]. cbn [fst] in *.
+  exact (emon_trans _ _ _ G (emon_trans _ _ _ H2 H3)). Qed.
 Lemma new_para_inv e text anc sup st cur : Inv e ->
-  Inv (fst (fst (new_para e text anc sup st cur))) /\ good_para (snd (fst (new_para e text anc sup st cur))).
+  Inv (fst (fst (new_para e text anc sup st cur))) /\ good_para (snd (fst (new_para e text anc sup st cur)))
+  /\ p_id (snd (fst (new_para e text anc sup st cur))) < d_next_uid (e_doc (fst (fst (new_para e text anc sup st cur))))
+  /\ emon e (fst (fst (new_para e text anc sup st cur))).
 Proof. intros H. unfold new_para.
+  pose proof (emon_ins_inline e text anc sup) as M1.
   destruct (ins_inline_inv e text anc sup H) as [H1 Hi]. destruct (ins_inline e text anc sup) as [e1 ins]. cbn [fst snd] in *.
-  pose proof (fresh_e_inv e1 H1) as H2. destruct (fresh_e_uid e1) as [U1 U2]. destruct (fresh_e e1) as [e2 pid]. cbn [fst snd] in *.
-  split; [exact H2|]. split; cbn [p_id p_nodes].
+  pose proof (fresh_e_inv e1 H1) as H2. destruct (fresh_e_uid e1) as [U1 U2]. pose proof (emon_fresh_e e1) as M2. destruct (fresh_e e1) as [e2 pid]. cbn [fst snd] in *.
+  split; [exact H2|]. split; [split; cbn [p_id p_nodes]|split; [cbn [p_id]; lia|exact (emon_trans _ _ _ M1 M2)]].
   - subst pid. unfold kid. apply Nat.ltb_ge. destruct H1 as (_ & N & _). exact N.
   - destruct Hi as (iu & m & runs & -> & Hm). unfold atoms_l. cbn [flat_map]. rewrite app_nil_r. now apply rej_session_ins. Qed.
-Lemma new_paras_fold_inv anc sup cur skip : forall ls e ns cr i, Inv e -> Forall (fun ip => good_para (snd ip)) ns ->
-  let '(e', ns', _, _) := fold_left (new_paras_step anc sup cur skip) ls (e, ns, cr, i) in Inv e' /\ Forall (fun ip => good_para (snd ip)) ns'.
+Definition good_at (e : eng) (ip : nat * para) : Prop := good_para (snd ip) /\ p_id (snd ip) < d_next_uid (e_doc e).
+Lemma good_at_mono e e' ns : emon e e' -> Forall (good_at e) ns -> Forall (good_at e') ns.
+Proof. intros M H. eapply Forall_impl; [|exact H]. intros ip [G L]. split; auto. unfold emon in M. lia. Qed.
+Lemma new_paras_fold_inv anc sup cur skip : forall ls e ns cr i, Inv e -> Forall (good_at e) ns ->
+  let '(e', ns', _, _) := fold_left (new_paras_step anc sup cur skip) ls (e, ns, cr, i) in Inv e' /\ Forall (good_at e') ns'.
 Proof. induction ls as [|l ls IH]; intros e ns cr i H Hn; cbn [fold_left]; [split; assumption|].
   unfold new_paras_step at 2. destruct (md_style l) as [ct st].
   destruct (skip && _); [now apply IH|].
-  destruct (new_para_inv e ct anc sup st cur H) as [H1 Hg]. destruct (new_para e ct anc sup st cur) as [[e' p] iu]. cbn [fst snd] in *.
-  apply IH; [exact H1|]. apply Forall_app. split; [exact Hn|]. constructor; [exact Hg|constructor]. Qed.
-Lemma place_paras_inv e pid news : Inv e -> Forall (fun ip => good_para (snd ip)) news -> Inv (with_doc e (place_paras pid news (e_doc e))).
-Proof. intros (A & N & B & C) Hn. destruct A as [R D]. split; [|cbn [with_doc e_doc e_cur e_next_c]; repeat split; auto].
-  cbn [with_doc e_doc]. split.
-  - rewrite prune_place; [exact R|]. apply Forall_forall. intros ip Hip. rewrite Forall_forall in Hn. exact (proj1 (Hn ip Hip)).
-  - unfold NewDead in *. apply Forall_forall. intros t Ht. apply in_map_iff in Ht as (p & <- & Hp).
-    destruct (paras_place _ _ _ _ Hp) as [Ho|Hnew].
-    + rewrite Forall_forall in D. apply D. now apply in_map.
-    + apply in_map_iff in Hnew as (ip & <- & Hip). rewrite Forall_forall in Hn. destruct (Hn ip Hip) as [_ G]. intros _. exact G. Qed.
+  destruct (new_para_inv e ct anc sup st cur H) as (H1 & Hg & Hl & Hm). destruct (new_para e ct anc sup st cur) as [[e' p] iu]. cbn [fst snd] in *.
+  apply IH; [exact H1|]. apply Forall_app. split; [exact (good_at_mono _ _ _ Hm Hn)|]. constructor; [split; assumption|constructor]. Qed.
+Lemma place_paras_inv e pid news : Inv e -> Forall (good_at e) news -> Inv (with_doc e (place_paras pid news (e_doc e))).
+Proof. intros (A & N & B & C & W) Hn. destruct A as [R D]. split; [|cbn [with_doc e_doc e_cur e_next_c]; repeat split; auto].
+  - cbn [with_doc e_doc]. split.
+    + rewrite prune_place; [exact R|]. apply Forall_forall. intros ip Hip. rewrite Forall_forall in Hn. exact (proj1 (proj1 (Hn ip Hip))).
+    + unfold NewDead in *. apply Forall_forall. intros t Ht. apply in_map_iff in Ht as (p & <- & Hp).
+      destruct (paras_place _ _ _ _ Hp) as [Ho|Hnew].
+      * rewrite Forall_forall in D. apply D. now apply in_map.
+      * apply in_map_iff in Hnew as (ip & <- & Hip). rewrite Forall_forall in Hn. destruct (Hn ip Hip) as [[_ G] _]. intros _. exact G.
+  - unfold wf_ids in *. apply Forall_forall. intros p Hp. destruct (paras_place _ _ _ _ Hp) as [Ho|Hnew].
+    + rewrite Forall_forall in W. exact (W p Ho).
+    + apply in_map_iff in Hnew as (ip & <- & Hip). rewrite Forall_forall in Hn. exact (proj2 (Hn ip Hip)). Qed.
 Lemma track_insert_inv e text anc cur cm sup : Inv e ->
   Inv (fst (track_insert e text anc cur cm sup)) /\ (forall ins, snd (track_insert e text anc cur cm sup) = Some ins -> session_ins ins).
 Proof. intros H. unfold track_insert. destruct (split_lines text) as [|l0 rest]; [split; [exact H|discriminate]|].
@@ -371,8 +406,6 @@ Proof. induction l as [|ed l IH]; intros tx orc; cbn [plan]; [reflexivity|].
   - specialize (IH tx orc). destruct (plan tx l orc) as [l' o']. cbn [fst length] in *. now rewrite IH.
   - destruct (find_match tx (c :: s) orc) as [m orcx]. specialize (IH tx orcx). destruct (plan tx l orcx) as [l' o']. cbn [fst length] in *. now rewrite IH. Qed.
 
-(* every paragraph identity lies below the document's next free identity (what the reader guarantees) *)
-Definition wf_ids (d : doc) : Prop := Forall (fun p => p_id p < d_next_uid d) (doc_paras d).
 
 Theorem engine_counts d author ts edits orc :
   let '(_, ap, sk, out) := apply_edits d author ts edits orc in out = 0 -> ap + sk = length edits.
@@ -400,12 +433,12 @@ Theorem engine_rel d author ts edits orc :
   let nd := normalize_doc d in
   wf_ids nd ->
   let '(d', _, _, _) := apply_edits d author ts edits orc in
-  RelG (scan_ids nd) (next_comment_id nd) (d_next_uid nd) nd d'.
+  RelG (scan_ids nd) (next_comment_id nd) (d_next_uid nd) nd d' /\ wf_ids d'.
 Proof. cbn zeta. intros Hwf. unfold apply_edits.
   set (nd := normalize_doc d) in *. set (cur0 := scan_ids nd). set (c0 := next_comment_id nd). set (n0 := d_next_uid nd).
   set (e := mk_engine d author ts).
   assert (He : Inv cur0 c0 n0 nd e).
-  { unfold e, mk_engine. fold nd. split; [|cbn; repeat split; unfold cur0, c0, n0; lia]. cbn [e_doc].
+  { unfold e, mk_engine. fold nd. split; [|cbn [e_doc e_cur e_next_c]; split; [unfold n0; lia|split; [unfold cur0; lia|split; [unfold c0; lia|exact Hwf]]]]. cbn [e_doc].
     apply Rel_is_RelG; [|apply Rel_refl]. unfold wf_ids in Hwf. apply Forall_forall. intros p Hp. rewrite Forall_forall in Hwf.
     unfold keepP, kid, n0. apply Nat.ltb_lt. exact (Hwf p Hp). }
   set (s0 := {| s_eng := e; s_raw := _; s_clean := None; s_cm0 := _; s_cmc := [] |}).
@@ -413,23 +446,23 @@ Proof. cbn zeta. intros Hwf. unfold apply_edits.
   pose proof (fold_idx_inv cur0 c0 n0 nd (sort_idx_desc indexed) (s0, 0, 0, 0, []) He) as HI.
   destruct (fold_left step_idx (sort_idx_desc indexed) (s0, 0, 0, 0, [])) as [[[[s1 ap1] sk1] out1] occ1]. cbn [i_inv] in HI.
   destruct heur as [|h heur'].
-  - exact (proj1 HI).
+  - destruct HI as (A & _ & _ & _ & W). split; assumption.
   - destruct (plan (map_text (s_raw (rebuild s1))) (sort_len_desc (h :: heur')) orc) as [planned orc1].
     pose proof (fold_heur_inv cur0 c0 n0 nd planned (rebuild s1, ap1, sk1, out1, orc1, occ1) HI) as HH.
-    destruct (fold_left step_heur planned _) as [[[[[s2 ap2] sk2] out2] orc2] occ2]. exact (proj1 HH). Qed.
+    destruct (fold_left step_heur planned _) as [[[[[s2 ap2] sk2] out2] orc2] occ2]. destruct HH as (A & _ & _ & _ & W). split; assumption. Qed.
 Theorem engine_contract d author ts edits orc :
   let nd := normalize_doc d in
   let '(d', ap, sk, out) := apply_edits d author ts edits orc in
   (wf_ids nd -> RelG (scan_ids nd) (next_comment_id nd) (d_next_uid nd) nd d') /\ (out = 0 -> ap + sk = length edits).
 Proof. cbn zeta. pose proof (engine_rel d author ts edits orc) as R. pose proof (engine_counts d author ts edits orc) as K. cbn zeta in R.
-  destruct (apply_edits d author ts edits orc) as [[[d' ap] sk] out]. split; assumption. Qed.
+  destruct (apply_edits d author ts edits orc) as [[[d' ap] sk] out]. split; [intros W; exact (proj1 (R W))|assumption]. Qed.
 (* a result without paragraphs of the session (no block insertion happened) satisfies the plain relation: same paragraphs *)
 Theorem engine_plain d author ts edits orc :
   let nd := normalize_doc d in
   let '(d', _, _, _) := apply_edits d author ts edits orc in
   wf_ids nd -> Forall (fun p => p_id p < d_next_uid nd) (doc_paras d') -> Rel (scan_ids nd) (next_comment_id nd) nd d'.
 Proof. cbn zeta. pose proof (engine_rel d author ts edits orc) as R. cbn zeta in R.
-  destruct (apply_edits d author ts edits orc) as [[[d' ap] sk] out]. intros W K. eapply RelG_no_new; [exact (R W)|].
+  destruct (apply_edits d author ts edits orc) as [[[d' ap] sk] out]. intros W K. eapply RelG_no_new; [exact (proj1 (R W))|].
   apply Forall_forall. intros p Hp. rewrite Forall_forall in K. unfold keepP, kid. apply Nat.ltb_lt. exact (K p Hp). Qed.
 Print Assumptions engine_rel.
 Print Assumptions engine_counts.
@@ -691,7 +724,7 @@ Proof. unfold resolve.
     all: try (match goal with H : do_split ?dd ?u ?k = (?d2, _, _) |- _ => pose proof (ARel_split dd u k) as S2; rewrite H in S2; cbn [fst] in S2; exact S2 end).
 Qed.
 Theorem anchor_keeps_tape d sp i : ARel d (fst (insertion_anchor d sp i)).
-Proof. unfold insertion_anchor.
+Proof. unfold insertion_anchor, gap_anchor, after_span.
   repeat (brk2; cbn [fst]; try apply ARel_refl).
   all: try (match goal with H : do_split ?dd ?u ?k = (?d2, _, _) |- _ => pose proof (ARel_split dd u k) as S2; rewrite H in S2; cbn [fst] in S2; exact S2 end).
 Qed.
@@ -798,23 +831,63 @@ Print Assumptions engine_no_trace.
 
 (* ---------- histories: every session satisfies its single-step contract relative to the document it loaded ---------- *)
 From Adeu Require Import History.
+(* paragraph identities are kept by everything that maps over paragraphs; next_uid only grows: well-formedness survives every session *)
+Lemma wf_of_ids a b : map p_id (doc_paras b) = map p_id (doc_paras a) -> d_next_uid a <= d_next_uid b -> wf_ids a -> wf_ids b.
+Proof. intros E M W. unfold wf_ids in *. apply Forall_forall. intros p Hp.
+  assert (Hi : In (p_id p) (map p_id (doc_paras a))) by (rewrite <- E; now apply in_map).
+  apply in_map_iff in Hi as (q & Hq & Hqin). rewrite Forall_forall in W. specialize (W q Hqin). lia. Qed.
+Lemma ids_map_doc f d : (forall p, p_id (f p) = p_id p) -> map p_id (doc_paras (map_doc f d)) = map p_id (doc_paras d).
+Proof. intros Hf. rewrite doc_paras_map, map_map. apply map_ext. exact Hf. Qed.
+Lemma wf_map_doc f d : (forall p, p_id (f p) = p_id p) -> wf_ids d -> wf_ids (map_doc f d).
+Proof. intros Hf. apply wf_of_ids; [now apply ids_map_doc|cbn; lia]. Qed.
+Lemma ids_normalize d : map p_id (doc_paras (normalize_doc d)) = map p_id (doc_paras d).
+Proof. unfold doc_paras, normalize_doc. cbn [d_stories]. rewrite fm_map', !map_fm. apply fm_ext_in. intros s _.
+  unfold normalize_story. destruct (N.eqb (s_kind s) 1); unfold map_story; cbn [s_blocks]; rewrite fm_map', !map_fm; apply fm_ext_in; intros b _;
+  rewrite block_paras_map, map_map; apply map_ext; reflexivity. Qed.
+Lemma wf_normalize d : wf_ids d -> wf_ids (normalize_doc d).
+Proof. apply wf_of_ids; [apply ids_normalize|cbn; lia]. Qed.
+Lemma wf_upd_doc f d : wf_ids d -> wf_ids (upd_doc f d).
+Proof. unfold upd_doc. apply wf_map_doc. reflexivity. Qed.
+Lemma wf_reply a t d tg tx : wf_ids d -> wf_ids (fst (reply_doc a t d tg tx)).
+Proof. intros W. unfold reply_doc. destruct (negb (existsb _ (d_comments d))); [exact W|].
+  set (d1 := {| d_stories := d_stories d; d_next_uid := d_next_uid d; d_comments := _ |}).
+  assert (W1 : wf_ids d1) by exact W.
+  assert (W2 : wf_ids (fst (fresh d1))). { revert W1. apply wf_of_ids; [reflexivity|cbn; lia]. }
+  destruct (fresh d1) as [d2 ru]. cbn [fst] in W2.
+  destruct (negb _); [exact W2|]. cbn [fst]. now repeat apply wf_upd_doc. Qed.
+Lemma wf_apply_actions a t : forall acts st, wf_ids (fst (fst st)) -> wf_ids (fst (fst (fold_left (step_action (reply_doc a t)) acts st))).
+Proof. induction acts as [|x acts IH]; intros st W; cbn [fold_left]; [exact W|]. apply IH.
+  destruct st as [[d ap] sk]. cbn [fst] in W. unfold step_action. destruct (route (a_target x)) as [[tid ic] im].
+  destruct (a_kind x).
+  - destruct (ic && doc_has_id tid d); cbn [fst]; [unfold accept_doc; apply wf_map_doc; [reflexivity|exact W]|exact W].
+  - destruct (ic && doc_has_id tid d); cbn [fst]; [unfold reject_doc; apply wf_map_doc; [reflexivity|exact W]|exact W].
+  - destruct im.
+    + pose proof (wf_reply a t d tid (a_text x) W) as Wr. destruct (reply_doc a t d tid (a_text x)) as [d' ok]. cbn [fst] in Wr. destruct ok; exact Wr.
+    + exact W. Qed.
+Lemma wf_run_session d s : wf_ids d -> wf_ids (run_session d s).
+Proof. intros W. destruct s as [a t es o|a t acts|]; cbn [run_session].
+  - pose proof (engine_rel d a t es o (wf_normalize d W)) as H. destruct (apply_edits d a t es o) as [[[d' ap] sk] out]. exact (proj2 H).
+  - unfold review_session, apply_actions. pose proof (wf_apply_actions a t acts (normalize_doc d, 0, 0) (wf_normalize d W)) as H.
+    destruct (fold_left _ acts (normalize_doc d, 0, 0)) as [[d' ap] sk]. exact H.
+  - unfold accept_all_doc. apply wf_map_doc; [reflexivity|now apply wf_normalize]. Qed.
 Definition session_contract (d : doc) (s : session) (d' : doc) : Prop :=
   match s with
-  | SEdits a t es o => let nd := normalize_doc d in wf_ids nd -> RelG (scan_ids nd) (next_comment_id nd) (d_next_uid nd) nd d'
+  | SEdits a t es o => let nd := normalize_doc d in RelG (scan_ids nd) (next_comment_id nd) (d_next_uid nd) nd d'
   | SReview a t acts => exists ap sk, review_session d a t acts = (d', ap, sk) /\ ap + sk = length acts
   | SAcceptAll => d' = accept_all_doc (normalize_doc d)
   end.
-Lemma run_session_contract d s : session_contract d s (run_session d s).
-Proof. destruct s as [a t es o|a t acts|]; cbn [run_session session_contract].
-  - pose proof (engine_rel d a t es o) as H. cbn zeta in H. destruct (apply_edits d a t es o) as [[[d' ap] sk] out]. exact H.
+Lemma run_session_contract d s : wf_ids d -> session_contract d s (run_session d s).
+Proof. intros W. destruct s as [a t es o|a t acts|]; cbn [run_session session_contract].
+  - pose proof (engine_rel d a t es o (wf_normalize d W)) as H. destruct (apply_edits d a t es o) as [[[d' ap] sk] out]. exact (proj1 H).
   - pose proof (actions_count (reply_doc a t) (normalize_doc d) acts) as H. unfold review_session in *.
     destruct (apply_actions (reply_doc a t) (normalize_doc d) acts) as [[d' ap] sk]. exists ap, sk. auto.
   - reflexivity. Qed.
 Fixpoint trace_ok (d : doc) (ss : list session) (tr : list doc) : Prop :=
   match ss, tr with
   | [], [] => True
-  | s :: r, d' :: tr' => session_contract d s d' /\ trace_ok d' r tr'
+  | s :: r, d' :: tr' => session_contract d s d' /\ wf_ids d' /\ trace_ok d' r tr'
   | _, _ => False end.
-Theorem history_contracts : forall ss d, trace_ok d ss (run_history d ss).
-Proof. induction ss as [|s r IH]; intros d; cbn [run_history trace_ok]; auto. split; [apply run_session_contract|apply IH]. Qed.
+Theorem history_contracts : forall ss d, wf_ids d -> trace_ok d ss (run_history d ss).
+Proof. induction ss as [|s r IH]; intros d W; cbn [run_history trace_ok]; auto.
+  pose proof (wf_run_session d s W) as W'. split; [now apply run_session_contract|]. split; [exact W'|now apply IH]. Qed.
 Print Assumptions history_contracts.
